@@ -46,3 +46,19 @@ package elastic
 //@                        when len(a) == 2 && astype(a[0], string) == ips && astype(a[1], uint16) == r.DstPort && e == nil && ret1 == nil && isptr(ret0, ScanResult)
 //@                          && asptr(ret0, ScanResult).Host == host && asptr(ret0, ScanResult).Proto == s.proto && asptr(ret0, ScanResult).Info == info
 //@                          && asptr(ret0, ScanResult).Indexes == ix && asptr(ret0, ScanResult).ScanType == "elastic" -> exit
+
+// C02 / C10: the scanner talks to the target itself: its HTTP client uses a private transport without any proxy
+// (so no connection ever goes to a host outside the target set), one connection per host, no keep-alives; the
+// per-request timeout is the configured data timeout (default first, then the options in order, nothing afterwards)
+//@ func WithDataTimeout$1
+//@   props C10
+//@   modifies s.elastic.dataTimeout
+//@   ensures s.elastic.dataTimeout == timeout
+//@ func NewScanner
+//@   props C02 C10
+//@   observe o
+//@   entry row init:  [] when s.proto == proto && s.elastic.proto == proto && s.elastic.client.Timeout == 0 && isptr(s.elastic.client.Transport, http.Transport) && fresh(asptr(s.elastic.client.Transport, http.Transport))
+//@                       && asptr(s.elastic.client.Transport, http.Transport).Proxy == nil && asptr(s.elastic.client.Transport, http.Transport).DialContext == nil
+//@                       && asptr(s.elastic.client.Transport, http.Transport).DisableKeepAlives -> loop 0
+//@   loop 0 row apply: [call o(s)] -> continue
+//@   loop 0 row done:  [] when ret == s -> exit
